@@ -323,8 +323,9 @@ def itv_model(ctx, drv):
     impl = ctx.run_lines([exe], lines, timeout=600, line_timeout=30)
     model = ctx.run_lines([drv], lines, timeout=600) if drv else None
     fams, nontriv = {}, 0
-    for i, (fam, items, qs) in enumerate(cases):
+    for fam, _, _ in cases:
         fams[fam] = fams.get(fam, 0) + 1
+    for i, (fam, items, qs) in enumerate(cases):
         exp = ' '.join('[' + ','.join(str(k) for k in sorted(k for lo, hi, k in items if lo <= qh and ql <= hi)) + ']' for ql, qh in qs)
         hits = [sum(1 for lo, hi, k in items if lo <= qh and ql <= hi) for ql, qh in qs]
         nt = any(0 < h < len(items) for h in hits)
